@@ -109,6 +109,9 @@ type peer struct {
 	// only for server role
 	listenAddr net.Addr
 	listeners  map[net.Listener]struct{}
+	// guards listeners: accept loops register themselves while another
+	// goroutine may start a second loop or close the peer
+	listenersLock sync.Mutex
 
 	// only for client role
 	dialer *Dialer
@@ -318,7 +321,9 @@ var ErrListenClosed = errors.New("listener is closed")
 // NOTE: The caller ensures that the listener supports graceful shutdown.
 func (p *peer) serveListener(lis net.Listener, protoFunc ...ProtoFunc) error {
 	defer lis.Close()
+	p.listenersLock.Lock()
 	p.listeners[lis] = struct{}{}
+	p.listenersLock.Unlock()
 
 	network := lis.Addr().Network()
 	switch lis.(type) {
@@ -408,7 +413,13 @@ func (p *peer) Close() (err error) {
 		}
 	}()
 	close(p.closeCh)
+	p.listenersLock.Lock()
+	listeners := make([]net.Listener, 0, len(p.listeners))
 	for lis := range p.listeners {
+		listeners = append(listeners, lis)
+	}
+	p.listenersLock.Unlock()
+	for _, lis := range listeners {
 		if _, ok := lis.(*quic.Listener); !ok {
 			lis.Close()
 		}
@@ -429,7 +440,7 @@ func (p *peer) Close() (err error) {
 		err = errors.Merge(err, <-errCh)
 	}
 	close(errCh)
-	for lis := range p.listeners {
+	for _, lis := range listeners {
 		if qlis, ok := lis.(*quic.Listener); ok {
 			err = errors.Merge(err, qlis.Close())
 		}
